@@ -360,6 +360,7 @@ func propC03(r *Run) {
 			r.sample(fmt.Sprintf("loc.expand %s %d %d", encLoc(l), i, -k))
 		}
 	}
+	c03Refs(r)
 	// within / overlap (survival predicates)
 	for t := 0; t < nRandom/4; t++ {
 		LL := r.rangeL()
@@ -547,7 +548,14 @@ func c04Loc(r *Run, l gts.Location, L, n int) {
 			}
 		}
 	} else {
-		r.checkDenLaw("rotate: den(after) = map rotMap den(before)", line, guard, got, want)
+		if r.checkDenLaw("rotate: den(after) = map rotMap den(before)", line, guard, got, want) && len(d) > 0 && nodup(d) && !hasAmbiguous(l) {
+			a5, a3 := outerMarks(l)
+			b5, b3 := outerMarks(got)
+			if a5 != b5 || a3 != b3 {
+				r.fail(Failure{Oracle: "rotate: partial markers stay on the same outer ends", Op: line, Got: encLoc(got),
+					Want: fmt.Sprintf("5' %v 3' %v", a5, a3), Guard: guard})
+			}
+		}
 	}
 	if !coordsWithin(got, L) {
 		r.fail(Failure{Oracle: "rotate: coordinates in [0,L]", Op: line, Got: encLoc(got), Guard: guard})
@@ -597,7 +605,9 @@ func propC04(r *Run) {
 		if !okBytes {
 			r.fail(Failure{Oracle: "rotate: residue k moves to (k+n) mod L", Op: line, Got: encBytes(ra.Bytes())})
 		}
+		c04Feats(r, line, s, ra, a, LL)
 		rab := gts.Rotate(copySeq(ra), b)
+		c04Feats(r, fmt.Sprintf("seq.rotate %s %d ; then %d", encSeq(s), a, b), s, rab, a+b, LL)
 		rsum := gts.Rotate(copySeq(s), a+b)
 		if string(rab.Bytes()) != string(rsum.Bytes()) {
 			r.fail(Failure{Oracle: "rotate: additive on residues", Op: line + fmt.Sprintf(" then %d", b), Got: encBytes(rab.Bytes()), Want: encBytes(rsum.Bytes())})
@@ -1007,4 +1017,50 @@ func cutGuards(s gts.Sequence, pts []int) string {
 		off += len(pc.Bytes())
 	}
 	return out
+}
+
+// c04Feats: every feature of the rotated record denotes its residues at (x+n) mod L, all
+// coordinates lie in [0,L]; features with a full-length part, an ambiguous leaf, duplicate
+// residues or a K2 shape are skipped (they have their own clauses at location level).
+func c04Feats(r *Run, line string, before, after gts.Sequence, n, L int) {
+	m := ((n % L) + L) % L
+	want := map[string]int{}
+	for _, f := range before.Features() {
+		d := den(f.Loc)
+		if len(d) == 0 || !nodup(d) || hasAmbiguous(f.Loc) || len(d) >= L || touchesK2(f.Loc) {
+			continue
+		}
+		want[featKey(f)+denStr(mapDen(d, rotMap(m, L)))]++
+	}
+	for _, f := range after.Features() {
+		if !coordsWithin(f.Loc, L) {
+			r.fail(Failure{Oracle: "rotate: all coordinates lie in [0,L]", Op: line, Got: encLoc(f.Loc)})
+			return
+		}
+		want[featKey(f)+denStr(den(f.Loc))]--
+	}
+	for k, v := range want {
+		if v > 0 {
+			r.fail(Failure{Oracle: "rotate: every feature denotes the same residues at (x+n) mod L", Op: line,
+				Got: fmt.Sprintf("%s missing %d", k, v)})
+			return
+		}
+	}
+}
+
+// touchesK2: some join in l has a Ranged directly or indirectly followed by a Point
+// (the only shape on which known finding K2 can fire after a coordinate change).
+func touchesK2(l gts.Location) bool { return containsKind(l) }
+
+func containsKind(l gts.Location) bool {
+	hasR, hasP := false, false
+	for _, u := range leaves(l) {
+		switch u.(type) {
+		case gts.Ranged:
+			hasR = true
+		case gts.Point:
+			hasP = true
+		}
+	}
+	return hasR && hasP
 }
